@@ -3,14 +3,35 @@ package main
 // Replay of solver counterexamples against the real code (go test -overlay; nothing is written to /repo).
 
 import (
+	"encoding/json"
 	"fmt"
 	"os"
+	"os/exec"
+	"path/filepath"
+	"regexp"
 	"strings"
+	"time"
 )
 
-// writeReplay writes the replay file of a failed obligation and, where an adapter exists and the
-// solver produced a model, runs the real function on the model's inputs. Returns whether the
-// failure was reproduced on the real code.
+type replayEntry struct {
+	Obligation string `json:"obligation"`
+	Dir        string `json:"dir"`
+	File       string `json:"file"`
+	Test       string `json:"test"`
+	What       string `json:"what"`
+}
+
+func replayIndex() []replayEntry {
+	var es []replayEntry
+	data, err := os.ReadFile(filepath.Join(verifDir, "replay", "index.json"))
+	if err == nil {
+		json.Unmarshal(data, &es)
+	}
+	return es
+}
+
+// writeReplay writes the replay file of a failed obligation and, where an adapter exists, runs the
+// real code on the counterexample. Returns whether the failure was reproduced on the real code.
 func writeReplay(e *Engine, t *fnTrans, o *Obligation, path string, noReplay bool) bool {
 	var b strings.Builder
 	fmt.Fprintf(&b, "obligation: %s\nfunction:   %s\nkind:       %s\nclause:     %s\nlocation:   %s\nverdict:    %s (%s)\nvc:         %s\n\n", o.Name, o.Fn, o.Kind, o.Desc, o.Pos, o.Result, o.Solver, o.VCFile)
@@ -18,17 +39,56 @@ func writeReplay(e *Engine, t *fnTrans, o *Obligation, path string, noReplay boo
 		fmt.Fprintf(&b, "--- %s ---\n%s\n", s, o.Outputs[s])
 	}
 	reproduced := false
-	if o.Result == "sat" && t != nil && t.fn != nil && !noReplay {
-		text, ok := replayGeneric(e, t, o)
-		b.WriteString("\n--- replay on the real code ---\n" + text + "\n")
+	var entry *replayEntry
+	for _, re := range replayIndex() {
+		if m, _ := regexp.MatchString(re.Obligation, o.Name); m {
+			r := re
+			entry = &r
+			break
+		}
+	}
+	switch {
+	case noReplay:
+		b.WriteString("\nreplay skipped (-noreplay)\n")
+	case entry != nil:
+		text, ok := runReplay(e, entry, o)
+		b.WriteString("\n--- replay on the real code: " + entry.What + " ---\n" + text + "\n")
 		reproduced = ok
-	} else if o.Result != "sat" {
+	case o.Result == "sat":
+		b.WriteString("\nthe solver produced a model (above) but no replay adapter exists for this function: no-failing-input-found\n")
+	default:
 		b.WriteString("\nno model from any solver (quantified or undecided goal): no-failing-input-found\n")
 	}
 	os.WriteFile(path, []byte(b.String()), 0o644)
 	return reproduced
 }
 
-func replayGeneric(e *Engine, t *fnTrans, o *Obligation) (string, bool) {
-	return "no replay adapter for this function signature", false
+// runReplay injects the adapter test into the package with -overlay and runs it against /repo's
+// working tree. The adapter fails (panic, wrong result) exactly when the counterexample reproduces.
+func runReplay(e *Engine, re *replayEntry, o *Obligation) (string, bool) {
+	src := filepath.Join(verifDir, "replay", re.File)
+	scratch, err := os.MkdirTemp("", "nsqvc-replay")
+	if err != nil {
+		return err.Error(), false
+	}
+	defer os.RemoveAll(scratch)
+	target := filepath.Join(e.repo, re.Dir, "zz_verif_replay_test.go")
+	ov := map[string]map[string]string{"Replace": {target: src}}
+	data, _ := json.Marshal(ov)
+	ovf := filepath.Join(scratch, "overlay.json")
+	os.WriteFile(ovf, data, 0o644)
+	cmd := exec.Command("go", "test", "-overlay", ovf, "-vet=off", "-count=1", "-timeout", "60s", "-run", "^"+re.Test+"$", "./"+re.Dir+"/")
+	cmd.Dir = e.repo
+	cmd.Env = append(os.Environ(), "GOFLAGS=-mod=mod", "GOPROXY=off", "GOSUMDB=off", "GOTOOLCHAIN=local", "VERIF_MODEL="+o.Model, "TMPDIR="+scratch)
+	start := time.Now()
+	out, err := cmd.CombinedOutput()
+	text := string(out)
+	if len(text) > 6000 {
+		text = text[:6000] + "…"
+	}
+	text = fmt.Sprintf("$ go test -overlay … -run ^%s$ ./%s/   (%.1fs)\n%s", re.Test, re.Dir, time.Since(start).Seconds(), text)
+	if err != nil && (strings.Contains(text, "--- FAIL") || strings.Contains(text, "panic:")) {
+		return text + "\nREPRODUCED on the real code", true
+	}
+	return text + "\nnot reproduced", false
 }
